@@ -67,8 +67,10 @@ Definition field_assigns : list (string * string * string) := [
 Definition repo_imports : list (string * string) := [
   ("internal/ast", "fmt");
   ("internal/ast", "github.com/benhoyt/goawk/lexer");
+  ("internal/ast", "math");
   ("internal/ast", "strconv");
   ("internal/ast", "strings");
+  ("internal/ast", "unicode/utf8");
   ("internal/compiler", "fmt");
   ("internal/compiler", "github.com/benhoyt/goawk/internal/ast");
   ("internal/compiler", "github.com/benhoyt/goawk/internal/resolver");
